@@ -38,23 +38,42 @@ type maskCfg struct {
 }
 
 type pluginCfg struct {
-	Masks               []maskCfg `json:"masks"`
-	MaskAppliedField    string    `json:"mask_applied_field,omitempty"`
-	MaskAppliedValue    string    `json:"mask_applied_value,omitempty"`
-	IgnoreFields        []string  `json:"ignore_fields,omitempty"`
-	ProcessFields       []string  `json:"process_fields,omitempty"`
-	AppliedMetricName   string    `json:"applied_metric_name,omitempty"`
-	AppliedMetricLabels []string  `json:"applied_metric_labels,omitempty"`
+	Masks            []maskCfg `json:"masks"`
+	MaskAppliedField string    `json:"mask_applied_field,omitempty"`
+	MaskAppliedValue string    `json:"mask_applied_value,omitempty"`
+	IgnoreFields     []string  `json:"ignore_fields,omitempty"`
+	ProcessFields    []string  `json:"process_fields,omitempty"`
+	// nil: the key is absent (the plugin's default name applies); a pointer to
+	// "" is an *explicit* empty string, which survives cfg.DecodeConfig
+	// (defaults are applied before the JSON is decoded) and switches the
+	// plugin-level counter off while the per-mask counters must keep working.
+	AppliedMetricName   *string  `json:"applied_metric_name,omitempty"`
+	AppliedMetricLabels []string `json:"applied_metric_labels,omitempty"`
 }
 
 const defaultAppliedMetric = "mask_applied_total" // README: applied_metric_name default
 
+// pluginMetricName: the name of the plugin-level counter, "" when it has
+// been switched off by an explicit empty applied_metric_name.
 func (p *pluginCfg) pluginMetricName() string {
-	if p.AppliedMetricName == "" {
+	if p.AppliedMetricName == nil {
 		return defaultAppliedMetric
 	}
-	return p.AppliedMetricName
+	return *p.AppliedMetricName
 }
+
+// pluginMetricKind: default | custom | off (evidence / fingerprints).
+func (p *pluginCfg) pluginMetricKind() string {
+	switch {
+	case p.AppliedMetricName == nil:
+		return "default"
+	case *p.AppliedMetricName == "":
+		return "off"
+	}
+	return "custom"
+}
+
+func strPtr(s string) *string { return &s }
 
 func (m *maskCfg) mode() string {
 	switch {
